@@ -26,31 +26,62 @@ def skip_decision(ctx):
     identical: the lazy check compares every cached list, and a full
     regeneration starts from the saved initial variables."""
     import ast
-    from ..index import unparse, walk_no_nested
-    from .. import query as Q
+    from ..facts import has, has_call, param_of
+    from ..index import walk_no_nested
+    from ..rules.regen import _allocs, _facts
     R = 'SKIP-ONLY-IF-IDENTICAL'
-    ctx.rule(R, 'the lazy-skip decision compares both the found and the '
-             'extra list of every cached filter and is taken only for lazy '
-             'regenerations; a regeneration resets the variables before the '
-             'toolchain file is replayed')
-    repo = ctx.repo
-    f = repo.func('bfg9000.builtins.find:find_check_cache')
-    upd = [n for n in ast.walk(f.node) if isinstance(n, ast.Assign) and
-           unparse(n.targets[0]) == 'regenerate' and
-           'results[0] != found' in unparse(n.value) and
-           'results[1] != extra' in unparse(n.value) and
-           'regenerate or' in unparse(n.value)]
-    ctx.ob(R, 'find_check_cache|compares-found-and-extra', len(upd) == 1,
-           f.node, 'a change that only affects the extra (dist-only) matches '
-           'does not trigger a regeneration')
-    loops = [n for n in walk_no_nested(f.node) if isinstance(n, ast.For) and
-             unparse(n.iter) == 'old_cache.items()']
-    ctx.ob(R, 'find_check_cache|all-cached-filters', len(loops) == 1, f.node,
-           'not every cached filter is re-checked')
-    lt = repo.func('bfg9000.build:load_toolchain')
-    branch = [n for n in walk_no_nested(lt.node) if isinstance(n, ast.If) and
-              unparse(n.test) == 'regenerating']
-    ok = len(branch) == 1 and any(unparse(s_) == 'env.reload()'
-                                  for s_ in branch[0].body)
+    ctx.rule(R, 'the decision to abort a lazy regeneration depends on a '
+             'comparison of both the found and the extra list of every '
+             'cached filter with a fresh walk, and is taken only for lazy '
+             'regenerations; a regeneration reloads the saved variables '
+             'before the toolchain file is replayed')
+    F = _facts(ctx)
+    f = F.fn('bfg9000.builtins.find:find_check_cache')
+    raises = [n for n in walk_no_nested(f.node) if isinstance(n, ast.Raise)]
+    ctl = set()
+    for n in raises:
+        ctl |= F.control(n, f)
+    adds = [e for e in F.calls_to(f, 'add', depth=1)
+            if has(e.recv(), "['find_cache']")]
+    a1 = a2 = set()
+    for e in adds:
+        a1 = _allocs(e.arg(1, kw='found')) - _allocs(e.arg(2, kw='extra'))
+        a2 = _allocs(e.arg(2, kw='extra')) - _allocs(e.arg(1, kw='found'))
+    ok = bool(raises) and bool(a1 & ctl) and bool(a2 & ctl) and \
+        has_call(ctl, 'load')
+    ctx.ob(R, 'find_check_cache|compares-found-and-extra', ok, f.node,
+           'the skip decision does not depend on both freshly walked lists '
+           '(included and not_now paths) and the saved cache: a change that '
+           'only affects one of them does not trigger a regeneration')
+    walks = F.calls_to(f, '_find_files', depth=2)
+    ok = bool(walks) and all(has_call(e.arg(1), 'load') for e in walks)
+    ctx.ob(R, 'find_check_cache|all-cached-filters', ok, f.node,
+           'the re-check does not walk the filters of the saved cache')
+    ok = bool(raises) and all(any(
+        op in ('Is', 'Eq') and (has(l, 'Regenerating', 'lazy') or
+                                has(r, 'Regenerating', 'lazy'))
+        for op, l, r in F.guard_compares(n, f)) for n in raises)
+    ctx.ob(R, 'find_check_cache|only-when-lazy', ok, f.node,
+           'a non-lazy regeneration can be aborted')
+    lt = F.fn('bfg9000.build:load_toolchain')
+    rl = F.calls_to(lt, 'reload', depth=1)
+    ok = bool(rl) and all(param_of(e.recv(), 'env') and param_of(
+        e.control(), 'regenerating') for e in rl) and all(
+        any(pos and param_of(F.atoms(t, e.fn), 'regenerating')
+            for t, pos in F.guards_pol(e.call, e.fn)) for e in rl)
     ctx.ob(R, 'load_toolchain|reload-when-regenerating', ok, lt.node,
            'stale toolchain settings survive a regeneration')
+    for fq in ('bfg9000.builtins.find:write_depfile',
+               'bfg9000.builtins.find:find_check_cache',
+               'bfg9000.builtins.find:find_from_filter',
+               'bfg9000.builtins.find:_find_files',
+               'bfg9000.builtins.regenerate:_inputs',
+               'bfg9000.builtins.regenerate:_outputs'):
+        fn = F.fn(fq)
+        bad = F.gen_reuse(fn)
+        ctx.ob('GEN-REUSE', fq, not bad, bad[0][2] if bad else fn.node,
+               'the one-shot iterator `{}` is consumed twice: the second '
+               'consumer sees nothing'.format(bad[0][0] if bad else ''))
+    ctx.rule('GEN-REUSE', 'no local bound to a generator / one-shot '
+             'iterator is consumed at two sites where one can run after '
+             'the other')
